@@ -180,6 +180,13 @@ FAULTS = [
     ("not-boolean", ["def a = 1", "if a then 2", "a"], 1, "rt", {}),
     ("deep", ["def f(x) error 'deep'", "def g(x) f(x)", "def h(x) g(x)",
               "h(1)"], 0, "rt", {"stack": [("f", 1), ("g", 2), ("h", 3)]}),
+    # a loop exit that escapes from a function body is reported where the
+    # exit statement stands, the call only appears in the stack trace
+    ("stray-break", ["def f(x) do if x > 1 then break; x end", "def a = 1",
+                     "f(2)"], 0, "rt", {"stack": [("f", 2)]}),
+    ("stray-continue", ["def f(x) do if x > 1 then continue; x end",
+                        "def a = 1", "f(2)"], 0, "rt",
+     {"stack": [("f", 2)]}),
     ("module", ["def a = 1", f"require {MODNAME}", f"{MODNAME}->boom(a)"],
      2, "rt", {"file": "mod:" + MODNAME, "line": 5,
                "stack": [("boom", 2)]}),
@@ -217,7 +224,8 @@ POS_RE = re.compile(r"(\S+):(\d+):(-?\d+)$")
 POSTOK = {"chain-add": 6, "chain-mul": 6, "nested-call": 6, "member": 4,
           "second-arg": 6, "undefined-name": 3, "operator-type": 5, "native-type": 1,
           "explicit-error": 0, "arity": 1, "index": 1, "not-boolean": 0,
-          "deep": 5, "stray-paren": 3, "missing-then": 2, "bad-def": 1,
+          "deep": 5, "stray-break": 11, "stray-continue": 11,
+          "stray-paren": 3, "missing-then": 2, "bad-def": 1,
           "unexpected-end": 5, "missing-end": 3}
 
 
@@ -227,7 +235,8 @@ POSTOK = {"chain-add": 6, "chain-mul": 6, "nested-call": 6, "member": 4,
 STARTTOK = {"chain-add": 3, "chain-mul": 3, "nested-call": 5, "member": 3,
             "second-arg": 6, "undefined-name": 3, "operator-type": 3,
             "native-type": 0, "explicit-error": 0, "arity": 0, "index": 0,
-            "not-boolean": 1, "deep": 5, "stray-paren": 3,
+            "not-boolean": 1, "deep": 5, "stray-break": 11,
+            "stray-continue": 11, "stray-paren": 3,
             "missing-then": 0, "bad-def": 0, "unexpected-end": 5,
             "missing-end": 0}
 
